@@ -42,8 +42,9 @@ class SimDeadlock(BaseException):
 
 
 class SimHang(BaseException):
-    """Raised by the runner's wall-clock alarm when one run does not come back (an operation of the library that never returns).
-    The budget is far above the cost of any legitimate run; the report is confirmed by replaying in a fresh interpreter."""
+    """Raised by the runner's CPU-time alarm (ITIMER_VIRTUAL) when one run does not come back (an operation of the library that never
+    returns). The budget is far above the CPU cost of any legitimate run and independent of machine load; the report is confirmed by
+    replaying in a fresh interpreter."""
 
 
 class Chooser:
